@@ -21,7 +21,8 @@ COQ = VERIF / "coq"
 REPO = Path(os.environ.get("KRROOD_REPO", "/repo"))
 WORK = VERIF / "work"
 REPLAYS = VERIF / "replays"
-EVIDENCE = VERIF / "evidence"
+# a run against another checkout (KRROOD_REPO: seeded changes, repair candidates) must not overwrite the evidence of /repo
+EVIDENCE = VERIF / "evidence" if REPO.resolve() == Path("/repo") else WORK / "evidence_other"
 KNOWN = VERIF / "KNOWN_FINDINGS.txt"
 PY = "/venv/bin/python"
 IMPL_ENV = dict(os.environ, PYTHONPATH=f"{REPO}/src:{REPO}:{VERIF}", PYTHONHASHSEED="0", KRROOD_VERIF="1")
